@@ -80,6 +80,8 @@ pub struct Knobs {
     /// virtual signals of the shape `ZERO op OUTPUT` / `OUTPUT op ZERO` (an absorbing or neutral constant next to a device read:
     /// evaluation is strict, so a Z / X there is an error whatever the other operand is)
     pub absorbing_virtuals: bool,
+    /// `bits(0, e)` entries: no column, but e is evaluated (draws, errors) like any other entry
+    pub zero_bits: bool,
 }
 
 impl Knobs {
@@ -112,6 +114,7 @@ impl Knobs {
             random_in_declares: false,
             suffix_names: false,
             absorbing_virtuals: false,
+            zero_bits: false,
         }
     }
     /// flat-ish programs dominated by data rows
@@ -326,6 +329,9 @@ impl Gen {
         let mut out = vec![];
         let mut c = 0;
         while c < plan.header.len() {
+            if self.k.zero_bits && self.rng.gen_bool(0.06) {
+                out.push(Entry::Bits(0, self.expr_in(self.k.expr_depth.min(2), Some(plan))));
+            }
             if plan.bit_pairs.contains(&c) && self.rng.gen_bool(self.k.p_bits) {
                 out.push(Entry::Bits(2, self.expr_in(self.k.expr_depth.min(2), Some(plan))));
                 c += 2;
